@@ -20,8 +20,8 @@ META = {
     "technique": "configuration/history generation: Hypothesis-drawn (algorithm, budget subset, module, seed) runs observed through an "
                  "independent search+execution observer; event-log oracle",
     "design_ref": "DESIGN.md §3 C17",
-    "rule": "case = algorithm in 7 non-LLM algorithms x non-empty subset of {iterations 1..10, test executions 1..200, statement executions "
-            "1..500, coverage plateau 1..4, maximum coverage 30..90} x corpus module x seed; non-trivial = the run was stopped by a "
+    "rule": "case = algorithm in 7 non-LLM algorithms x (one case in four: two budgets with the same number, incl. a search time in seconds) non-empty subset of {iterations 1..10, test executions 1..200, statement executions "
+            "1..500, coverage plateau 1..4, maximum coverage 30..90} x type tracing off|on x corpus module x seed; non-trivial = the run was stopped by a "
             "budget (not by full coverage) after >= 1 completed iteration; distinct by the whole case",
     "assumptions": ["boundaries are the loop head and every after_search_iteration; executions of the initial population happen before the "
                     "first boundary and are allowed",
@@ -33,7 +33,7 @@ META = {
                   "iteration boundary and execution.",
 }
 PLAN = {
-    "quick": {"shards": 16, "examples": 64, "timeout": 1200},
+    "quick": {"shards": 16, "examples": 64, "timeout": 2400},
     "thorough": {"shards": 16, "examples": 2400, "timeout": 5400},
 }
 
@@ -57,8 +57,14 @@ def _case(draw) -> dict[str, Any]:
             budgets[k] = draw(st.integers(1, 4))
         else:
             budgets[k] = draw(st.integers(30, 90))
+    # two budgets with the *same* number (a typical configuration: "25 executions or 25 statements", "5 iterations or 5 s")
+    if draw(st.integers(0, 3)) == 0:
+        pair = draw(st.sampled_from([("stmt", "exec"), ("iter", "time"), ("iter", "exec"), ("iter", "stmt")]))
+        k = draw(st.integers(2, 6)) if "time" in pair else draw(st.integers(3, 40))
+        budgets = {pair[0]: k, pair[1]: k}
     return {"algo": draw(st.sampled_from(ALGOS)), "module": draw(st.sampled_from(MODS)), "seed": draw(st.integers(0, 10**6)),
-            "population": draw(st.sampled_from([4, 10, 20])), "budgets": budgets}
+            "population": draw(st.sampled_from([4, 10, 20])), "budgets": budgets,
+            "type_tracing": draw(st.sampled_from([0.0, 0.0, 0.0, 1.0, 0.5]))}
 
 
 def strategy(ctx):
@@ -67,7 +73,7 @@ def strategy(ctx):
 
 def _child(case: dict[str, Any]) -> dict[str, Any]:
     import pynguin.ga.searchobserver as so
-    from pynguin.testcase.execution_observers import ExecutionObserver, RemoteExecutionObserver
+    from pynguin.testcase.execution_observers import RemoteExecutionObserver
 
     from vf.corpus import CORPUS_DIR
     from vf.session import Session
@@ -91,20 +97,7 @@ def _child(case: dict[str, Any]) -> dict[str, Any]:
         def after_test_case_execution(self, executor, test_case, result):
             events.append(["stmts", self.count])
 
-    class _Obs(so.SearchObserver, ExecutionObserver):
-        def __init__(self) -> None:
-            self._remote = _Remote()
-
-        @property
-        def remote_observer(self):
-            return self._remote
-
-        def before_remote_test_case_execution(self, test_case):
-            events.append(["exec"])
-
-        def after_remote_test_case_execution(self, test_case, result):
-            pass
-
+    class _Obs(so.SearchObserver):
         def before_search_start(self, start_time_ns):
             events.append(["start"])
 
@@ -117,6 +110,18 @@ def _child(case: dict[str, Any]) -> dict[str, Any]:
         def after_search_finish(self):
             events.append(["finish"])
 
+    # Executions are counted at the executor's entry point itself (not through the observer lists the stopping conditions
+    # live in), statements through a remote observer of our own.
+    from pynguin.testcase.execution import TestCaseExecutor
+
+    orig_execute = TestCaseExecutor.execute
+
+    def counting_execute(self, test_case):
+        events.append(["exec"])
+        return orig_execute(self, test_case)
+
+    TestCaseExecutor.execute = counting_execute  # we are in a forked child: nothing to restore
+
     b = case["budgets"]
     overrides = {
         "stopping.maximum_iterations": b.get("iter", -1),
@@ -124,16 +129,16 @@ def _child(case: dict[str, Any]) -> dict[str, Any]:
         "stopping.maximum_statement_executions": b.get("stmt", -1),
         "stopping.maximum_coverage_plateau": b.get("plateau", -1),
         "stopping.maximum_coverage": b.get("maxcov", 100),
-        "stopping.maximum_search_time": 120,
+        "stopping.maximum_search_time": b.get("time", 120),
         "search_algorithm.population": case["population"],
+        "type_inference.type_tracing": case.get("type_tracing", 0.0),
         "stopping.maximum_test_execution_timeout": 120,
         "stopping.test_execution_time_per_statement": 30,
     }
     with Session(CORPUS_DIR, case["module"], seed=case["seed"], algorithm=case["algo"], coverage_metrics=("BRANCH",),
                  maximum_iterations=b.get("iter", -1), overrides=overrides) as s:
-        obs = _Obs()
-        s.algorithm.add_search_observer(obs)
-        s.executor.add_observer(obs)
+        s.algorithm.add_search_observer(_Obs())
+        s.executor.add_remote_observer(_Remote())
         suite = s.algorithm.generate_tests()
         cov = suite.get_coverage()
         conds = [str(c) for c in s.algorithm.stopping_conditions]
@@ -205,12 +210,13 @@ def evaluate(case: dict[str, Any]) -> Outcome:
     from vf.iso import forked
 
     out = Outcome()
-    kind, val = forked(lambda: _child(case), timeout=300)
+    kind, val = forked(lambda: _child(case), timeout=600)
     if kind == "ok":
         _analyse(case, val, out)
     elif kind == "timeout":
-        out.fail(f"search-did-not-stop|{case['algo']}|{'+'.join(sorted(case['budgets']))}",
-                 f"no return within 300 s although budgets {case['budgets']} are tiny; case={case}")
+        # A search that ignores its budgets is ended by the 120 s safety search time and then shows up in the event log;
+        # not returning within the cap is therefore a matter of machine load, not a verdict.
+        out.inconclusive = "run exceeded the 600 s cap (machine load)"
     elif kind == "exc":
         if val.get("pynguin_frame"):
             out.fail(f"unexpected-exception|{val['sig']}", val["detail"])
